@@ -184,3 +184,18 @@ inline std::vector<double> periodicTimes(double interval, double lo, double hi) 
 }
 
 } // namespace evsys
+
+// ------------------------------------------------------------------ a home for Measures (C23)
+// An otherwise empty Subsystem: Measures constructed on it get their state variables (z, discrete, cache) in this
+// subsystem's slots, so they never mix with the variables anasys::AnaSystem keeps in the default subsystem.
+namespace evsys {
+class MeasureSubsystem : public SimTK::Subsystem {
+    class MGuts : public SimTK::Subsystem::Guts {
+    public:
+        MGuts() : SimTK::Subsystem::Guts("evsys::MeasureSubsystem", "1.0.0") {}
+        MGuts* cloneImpl() const override { return new MGuts(*this); }
+    };
+public:
+    explicit MeasureSubsystem(SimTK::System& sys) { adoptSubsystemGuts(new MGuts()); sys.adoptSubsystem(*this); }
+};
+} // namespace evsys
